@@ -55,6 +55,10 @@ class KeepDirectoryStrategy(NamingStrategy):
         elif re.match(r'[a-zA-Z]{1}:', contained_dir) is not None:
             return local_dir, local_filename
 
+        # Never leave the local directory through a '..' (or '.') sent by the peer
+        elif contained_dir in ('.', '..'):
+            return local_dir, local_filename
+
         return os.path.join(local_dir, contained_dir), local_filename
 
 
